@@ -301,7 +301,11 @@ def rewrite(draw, case, kinds, n_max=3):
         elif kind == 'add_default':
             mi, ti = draw(st.sampled_from(tasks))
             t = prog['modules'][mi]['tasks'][ti]
-            if not any(p['name'] == 'nd' for p in t['params']):
+            if not any(p['name'] == 'nd' for p in t['params']) and prog['modules'][mi].get('objects') and draw(st.integers(0, 2)) == 0:
+                # ... whose default is an OBJECT (left unset in every config)
+                t['params'].append({'name': 'nd', 'cfg': None, 'ignore': False, 'dpdv': True, 'dtype': None, 'object': 'Ob',
+                                    'default': {'v': {'__object__': 'Ob', 'args': [2], 'kwargs': {}}, 'as_object': True}})
+            elif not any(p['name'] == 'nd' for p in t['params']):
                 d = draw(st.sampled_from([None, 0, 'dflt', [1, 'a'], {'k': 1}]))
                 t['params'].append({'name': 'nd', 'cfg': None, 'ignore': False, 'dpdv': True, 'dtype': None,
                                     'default': {'v': d}})
